@@ -141,6 +141,13 @@ pub fn check(cx: &Cx, rep: &mut Report) {
                     }
                     let boundary_vt = ix.ev[s_out as usize].vt;
                     rep.premise("C07.R5.old_timers_silent");
+                    // exact order: a firing event of this timer after stopped() of its incarnation had returned
+                    if !cx.mt {
+                        if let Some(f) = ix.ev.iter().find(|e| e.stamp > s_out && matches!(&e.k, K::TimerFire { id } if *id == t.id)) {
+                            rep.fail(P, "R5", format!("old_timer_fired_after_stopped;kind={}", t.kind), format!("{} timer {} registered in incarnation {reg_inc} fired at #{} although stopped() of that incarnation had returned at #{s_out}", t.kind, t.id, f.stamp), vec![t.reg, s_out, f.stamp]);
+                            continue;
+                        }
+                    }
                     let fired: Vec<(u64, u64)> = if t.kind == "delayed_exec" {
                         ix.ev.iter().filter_map(|e| if let K::Exec { id, .. } = &e.k { if *id == t.id { Some((e.stamp, e.vt)) } else { None } } else { None }).collect()
                     } else {
